@@ -107,7 +107,7 @@ func (e *FnExec) pkgTypes() *types.Package {
 
 // specEnv builds the environment for clauses of the function under verification.
 func (e *FnExec) specEnv(st *State, scopePos token.Pos) *SpecEnv {
-	env := &SpecEnv{e: e, cur: st, old: e.entry, vars: map[string]specVar{}, pkg: e.pkgTypes(), scopePos: scopePos}
+	env := &SpecEnv{pureIdx: -1, e: e, cur: st, old: e.entry, vars: map[string]specVar{}, pkg: e.pkgTypes(), scopePos: scopePos}
 	if !scopePos.IsValid() {
 		for n, v := range e.params {
 			env.vars[n] = specVar{v.T, e.paramTy[n]}
@@ -484,11 +484,99 @@ func (e *FnExec) call(st *State, instr ssa.Instruction, c *ssa.CallCommon, res s
 		}
 	}
 	if con == nil {
+		if key != "" {
+			e.noteCall(st, key, args, sig, c)
+		}
 		e.uncontractedCall(st, key, c, res, instr.Pos())
 		return
 	}
+	if e.con != nil && e.con.Guards != nil {
+		name := lastName(key)
+		e.guardN[name]++
+		gk := fmt.Sprintf("%s#%d", name, e.guardN[name])
+		if g, ok := e.con.Guards[gk]; ok {
+			env := e.specEnv(st, instr.Pos())
+			t, err := env.boolExpr(g)
+			if err != nil {
+				e.errf("%v", err)
+			} else {
+				e.assert(st, "guardcall", t, instr.Pos(), "call "+gk+" only when "+g.Text, gk)
+				e.guardSeen[gk] = true
+			}
+		}
+	}
 	con.used++
+	e.noteCall(st, key, args, sig, c)
 	e.applyContract(st, key, con, sig, c, args, res, instr.Pos(), True)
+}
+
+// noteCall maintains the ghost state behind called(name) / callarg(name, i) / guardcall for
+// statically known callees.
+func (e *FnExec) noteCall(st *State, key string, args []*Term, sig *types.Signature, c *ssa.CallCommon) {
+	name := lastName(key)
+	if id, ok := e.calledCell[name]; ok {
+		st.cells[id] = True
+	}
+	off := 0
+	if sig.Recv() != nil {
+		off = 1
+	}
+	// callarg(name, k) denotes a ghost constant; it equals the actual argument on the paths
+	// where the call happens (the call must not sit in a loop)
+	if gs, ok := e.callArgs[name]; ok {
+		for k, g := range gs {
+			if off+k < len(args) && g.v != nil && g.v.Sort == args[off+k].Sort {
+				e.addFact(st, Eq(g.v, args[off+k]))
+			}
+		}
+	}
+}
+
+// initCallArgGhosts pre-creates the ghost constants behind callarg(name, k).
+func (e *FnExec) initCallArgGhosts() {
+	if e.con == nil {
+		return
+	}
+	var texts []string
+	for _, c := range e.con.Ensures {
+		texts = append(texts, c.Text)
+	}
+	names := map[string]bool{}
+	for _, t := range texts {
+		for {
+			i := strings.Index(t, "callarg(")
+			if i < 0 {
+				break
+			}
+			t = t[i+len("callarg("):]
+			j := strings.IndexAny(t, ",)")
+			if j < 0 {
+				break
+			}
+			names[strings.TrimSpace(t[:j])] = true
+		}
+	}
+	for _, b := range e.fn.Blocks {
+		for _, ins := range b.Instrs {
+			ci, ok := ins.(ssa.CallInstruction)
+			if !ok {
+				continue
+			}
+			key, sig, _ := e.calleeKey(ci.Common())
+			if key == "" || !names[lastName(key)] {
+				continue
+			}
+			if _, done := e.callArgs[lastName(key)]; done {
+				continue
+			}
+			var gs []specVar
+			for k := 0; k < sig.Params().Len(); k++ {
+				t := sig.Params().At(k).Type()
+				gs = append(gs, specVar{Var(fmt.Sprintf("callarg!%s!%d", lastName(key), k), sortOf(t)), t})
+			}
+			e.callArgs[lastName(key)] = gs
+		}
+	}
 }
 
 func (e *FnExec) uncontractedCall(st *State, key string, c *ssa.CallCommon, res ssa.Value, pos token.Pos) {
@@ -511,7 +599,7 @@ func (e *FnExec) uncontractedCall(st *State, key string, c *ssa.CallCommon, res 
 // applyContract: assert pre, havoc frame, assume post.
 func (e *FnExec) applyContract(st *State, key string, con *Contract, sig *types.Signature, c *ssa.CallCommon, args []*Term, res ssa.Value, pos token.Pos, guard *Term) {
 	pkg := e.P.typesPkg(con.PkgPath)
-	env := &SpecEnv{e: e, cur: st, old: nil, vars: map[string]specVar{}, pkg: pkg}
+	env := &SpecEnv{pureIdx: -1, e: e, cur: st, old: nil, vars: map[string]specVar{}, pkg: pkg}
 	env.vars["callid"] = specVar{Fresh("callid", "Int"), types.Typ[types.Int]}
 	// bind names
 	i := 0
@@ -666,15 +754,18 @@ func (e *FnExec) applyContract(st *State, key string, con *Contract, sig *types.
 		}
 	}
 	// results
-	post := &SpecEnv{e: e, cur: st, old: pre, vars: env.vars, pkg: pkg}
+	post := &SpecEnv{pureIdx: -1, e: e, cur: st, old: pre, vars: env.vars, pkg: pkg}
 	if res != nil {
 		rs := sig.Results()
 		var rvals []Val
 		for k := 0; k < rs.Len(); k++ {
 			rt := rs.At(k).Type()
 			var t *Term
-			if con.Pure && rs.Len() == 1 {
+			if con.Pure {
 				uargs, uname := args, "pure!"+key
+				if rs.Len() > 1 {
+					uname = fmt.Sprintf("pure!%s#%d", key, k)
+				}
 				if sig.Variadic() && len(args) > 0 {
 					// flatten a variadic slice of known small length into its elements
 					last := args[len(args)-1]
